@@ -241,6 +241,9 @@ pub fn worker_main<P: Prop>() -> i32 {
             Ok(_) => {}
             Err(_) => return 0,
         }
+        if line.trim_end() == "QUIT" {
+            return 0;
+        }
         let case: P::Case = match serde_json::from_str(line.trim_end()) {
             Ok(c) => c,
             Err(e) => {
@@ -311,6 +314,17 @@ impl Worker {
     }
 
     fn kill(&mut self) {
+        // coverage measurement (tools/coverage.sh) needs workers that exit through main so that their counters are written
+        if std::env::var_os("VERIF_GRACEFUL_WORKERS").is_some() && matches!(self.child.try_wait(), Ok(None)) {
+            let _ = self.stdin.write_all(b"QUIT\n");
+            let _ = self.stdin.flush();
+            for _ in 0..200 {
+                if !matches!(self.child.try_wait(), Ok(None)) {
+                    break;
+                }
+                std::thread::sleep(std::time::Duration::from_millis(10));
+            }
+        }
         let _ = self.child.kill();
         let _ = self.child.wait();
         let _ = std::fs::remove_file(&self.stderr_path);
